@@ -502,7 +502,65 @@ def rule_square_loops(ctx):
     ctx.floor("square loops", n, 3)
 
 
-RULES = [("filter", rule_filter), ("probe", rule_probe), ("check-mirror", rule_check_mirror), ("castle-pre", rule_castle_pre), ("castle-masks", rule_castle_masks),
+PLYB = "board::ply::builder::Builder::"
+
+
+def rule_ply_builder(ctx):
+    """A generated move says what the generator said: Ply::builder / Builder::new take (start, dest, piece) as given and
+    leave every flag clear; each flag setter stores its argument in its own field; build copies each field to the Ply's
+    field of the same meaning, unconditionally."""
+    ix = ctx.ix
+    nb = ctx.body(PLYB + "new")
+    r = ctx.sym(nb).local(0)
+    ok = r[0] == "agg" and len(r) > 4
+    if ok:
+        f = dict(zip(r[4], r[3]))
+        ok = (f.get("start") == ("arg", "start") and f.get("dest") == ("arg", "dest") and f.get("piece") == ("arg", "piece")
+              and f.get("captured_piece", ("x",))[0] == "agg" and f["captured_piece"][2] == "None" and f.get("promoted_to", ("x",))[0] == "agg" and f["promoted_to"][2] == "None"
+              and all(f.get(k) == ("const", 0, "bool") for k in ("castles", "en_passant", "double_pawn_push")))
+    ctx.check(ok, "Builder::new:fields", "Builder::new(start, dest, piece) keeps its arguments and starts with no capture, no promotion and all flags clear", nb.where(0),
+              bad_what="Builder::new builds `%s`" % expr_str(r)[:160])
+    pn = ctx.body("board::ply::Ply::new")
+    r = ctx.sym(pn).local(0)
+    ok = r[0] == "agg" and len(r) > 4
+    if ok:
+        f = dict(zip(r[4], r[3]))
+        ok = (f.get("start") == ("arg", "start") and f.get("dest") == ("arg", "dest") and f.get("piece") == ("arg", "piece")
+              and f.get("captured_piece", ("x",))[0] == "agg" and f["captured_piece"][2] == "None" and f.get("promoted_to", ("x",))[0] == "agg" and f["promoted_to"][2] == "None"
+              and all(f.get(k) == ("const", 0, "bool") for k in ("is_castles", "en_passant", "is_double_pawn_push")))
+    ctx.check(ok, "Ply::new:fields", "Ply::new(start, dest, piece) is a plain move: no capture, no promotion, no flag", pn.where(0), bad_what="Ply::new builds `%s`" % expr_str(r)[:160])
+    pb = ctx.body("board::ply::Ply::builder")
+    r = ctx.sym(pb).local(0)
+    ctx.check(r == ("call", PLYB + "new", (("arg", "start"), ("arg", "dest"), ("arg", "piece"))), "Ply::builder:forwards", "Ply::builder forwards to Builder::new", pb.where(0), bad_what="Ply::builder is `%s`" % expr_str(r)[:100])
+    for name, field, wrap in (("captured", "captured_piece", "Some"), ("promoted_to", "promoted_to", "Some"), ("castles", "castles", None),
+                              ("en_passant", "en_passant", None), ("double_pawn_push", "double_pawn_push", None)):
+        b = ctx.body(PLYB + name)
+        sym = ctx.sym(b)
+        asg = [(bi, st) for bi, i, st in b.stmts() if st["lhs"]["l"] == 1 and st["lhs"]["p"] and st["lhs"]["p"][0] == "*"]
+        ok = len(asg) == 1 and fields_of(asg[0][1]["lhs"]) == (field,) and len(b.blocks) <= 2
+        if ok:
+            v = sym.rvalue(asg[0][1]["rv"])
+            arg = ("arg", b.local_name(2))
+            ok = (v == arg) if wrap is None else (v[0] == "agg" and v[2] == wrap and v[3] == (arg,))
+        ctx.check(ok, "Builder::%s:plain" % name, "Builder::%s stores %s in self.%s" % (name, "Some(argument)" if wrap else "its argument", field), b.where(0),
+                  bad_what="Builder::%s is not the plain store into self.%s" % (name, field))
+    bb = ctx.body(PLYB + "build")
+    r = ctx.sym(bb).local(0)
+    pairs = {"start": "start", "dest": "dest", "piece": "piece", "captured_piece": "captured_piece", "promoted_to": "promoted_to",
+             "is_castles": "castles", "en_passant": "en_passant", "is_double_pawn_push": "double_pawn_push", "halfmove_clock": "halfmove_clock", "castling_rights": "castling_rights"}
+    ok = r[0] == "agg" and len(r) > 4 and len(bb.blocks) <= 2
+    wrong = {}
+    if ok:
+        f = dict(zip(r[4], r[3]))
+        for pf, bf in pairs.items():
+            e = mir.strip_copies(f.get(pf, ("missing",)))
+            if not (e[0] == "field" and e[2:] == (bf,) and mir.strip_refs(e[1]) == ("arg", "self")):
+                wrong[pf] = expr_str(e)[:40]
+    ctx.check(ok and not wrong, "Builder::build:copies", "build() copies every builder field to the Ply field of the same meaning", bb.where(0),
+              bad_what="build() does not copy field for field: %s" % (wrong or expr_str(r)[:100]))
+
+
+RULES = [("ply-builder", rule_ply_builder), ("filter", rule_filter), ("probe", rule_probe), ("check-mirror", rule_check_mirror), ("castle-pre", rule_castle_pre), ("castle-masks", rule_castle_masks),
          ("castle-moves", rule_castle_moves), ("pawn-table", rule_pawn_table), ("dispatch", rule_dispatch), ("capture-src", rule_capture_src), ("square-loops", rule_square_loops)]
 # what the clauses above take for granted, decided here as well: the attack tables the generators read (C06), make/unmake
 # leaving the position intact around the legality probe (C02), and the bookkeeping that later move generation depends on
